@@ -46,7 +46,7 @@ def run_one(k, sd, props, tier, seeds):
         print(f"{os.path.basename(sd)}: patch does not apply: {ap.stdout}", flush=True)
         return
     meta = json.load(open(os.path.join(sd, "meta.json")))
-    ps = props or [meta["property"]]
+    ps = props or meta.get("properties") or [meta["property"]]
     results = []
     env = dict(os.environ)
     env["VERIF_REPO"] = repo
